@@ -157,7 +157,7 @@ fn c18_dint_quantity_round_trip_small() {
     reach!();
 }
 
-//@ob fn="<Quantity as From<Time>>::from" at=src/dimensions.rs:150 clause="monotonicity, cast step only: t1 <= t2 implies (t1 as f32) <= (t2 as f32) for all i64 pairs (the remaining step, monotonicity of f32 division by the positive constant 1e9, is an IEEE-754 fact the solver did not establish in 5 min; see note)"
+//@ob fn="<Quantity as From<Time>>::from" at=src/dimensions.rs:150 clause="monotonicity, cast step only: t1 <= t2 implies (t1 as f32) <= (t2 as f32) for all i64 pairs (the remaining step, monotonicity of f32 division by the positive constant 1e9, is an IEEE-754 fact the solver did not establish in 25 min; see note)"
 #[kani::proof]
 #[kani::solver(cvc5)]
 fn c18_time_to_f32_cast_is_monotone() {
@@ -183,12 +183,13 @@ fn c18_i64_to_f32_cast_within_half_ulp() {
     reach!();
 }
 
-// NOTE (accuracy clauses of C18, not discharged here).  Attempted as cvc5 obligations on the whole domain, each
-// stopped after 330 s without an answer, therefore NOT included (and not replaced by sampling):
+// NOTE (accuracy clauses of C18, not discharged here).  Attempted as cvc5 obligations on the whole domain; each was
+// stopped without an answer after 330 s and, in a second attempt, after 1500 s, therefore NOT included (and not
+// replaced by sampling):
 //   * monotone in t:   t1 <= t2  =>  Quantity::from(Time(t1)).value <= Quantity::from(Time(t2)).value
 //                      (also the lemma  x <= y  =>  x / 1e9 <= y / 1e9  alone; cvc5, z3, Kissat);
 //   * within 2 ulp:    |v - ns/1e9| against an f64 reference (both as  v*1e9 - ns  and as  v - ns/1e9);
 //   * round trip:      |Time::try_from(Quantity::from(Time(t))) - t| <= |t| * 2^-22 + 1   (i128 comparison).
 // What IS proved: the exact formulas (value == (ns as f32)/1e9, result == (v*1e9) as i64), the truncation meaning of
-// the cast (< 1 ns), and monotonicity of the cast step.  The three clauses follow from these by IEEE-754 correct rounding
+// the cast (< 1 ns), and for the i64 -> f32 cast step both monotonicity and the half-ulp error bound.  The three clauses follow from these by IEEE-754 correct rounding
 // of i64->f32, `/` and `*`, which is a property of the arithmetic, not of rrtk's text.
